@@ -2,6 +2,8 @@
 From GV Require Import Lib.Trace Model.Loop Spec.LoopSpec Proofs.LoopData Proofs.LoopProgress.
 From GV Require Import Model.Elastic Spec.ElasticSpec Proofs.LoopBufferLink.
 From GV Require Model.Ring Model.LList.
+From GV Require Lib.Interleave Spec.AtomicQueue Model.MSQueue.
+From GV Require Import Proofs.LoopQueueLink.
 Open Scope Z_scope.
 
 (* For every input stream: the bytes the kernel accepts from a connection are always the
@@ -75,3 +77,100 @@ Theorem C02_outbound_buffer_link :
   (forall m, binv (mkB m None LList.empty_buffer) /\ bcontent (mkB m None LList.empty_buffer) = []).
 Proof. exact outbound_buffer_link. Qed.
 Print Assumptions C02_outbound_buffer_link.
+
+(* What licenses the task lists [l_urgent] / [l_low] of Model/Loop.v, i.e. what "asynchronous
+   writes are carried out in issue order" rests on.  In gnet the two task queues of a poller are
+   lock-free Michael-Scott queues (pkg/queue/lock_free_queue.go) fed by any number of goroutines
+   (Poller.Trigger) and drained by the loop; Model/Loop.v holds them as plain lists: [enqueue]
+   appends at the end of the queue chosen by the length of the urgent one, [drain_urgent] /
+   [drain_low] take the head (`match l_urgent (st w) with [] => .. | t :: rest => ..`), [chores]
+   tests for [].  C13 proves the queue model (Model/MSQueue.v) linearizable against the sequential
+   specification [qstep] with explicit linearization points.  Here ([nm] maps the integer that
+   stands for a *Task in the queue model to the loop model's [task]; [qrep nm s q]: the list the
+   C13 abstraction function yields for state s, read through nm, is q; [loop_queues nm su sl st]:
+   that for [l_urgent st] and [l_low st]):
+   - [qstep] IS append-at-the-end / head-and-tail, and answers "empty" only for [];
+   - every atomic step of a reachable queue state leaves the represented list unchanged, or is the
+     linearization point of an Enqueue (list becomes q ++ [nm v]), of a successful Dequeue
+     (q = nm v :: rest, list becomes rest) or an observation of emptiness (q = []);
+   - on an [lstate]: the linearization of Enqueue in the queue Trigger chose gives [enqueue st
+     is_low (nm v)]; the linearization of the loop's Dequeue is the `t :: rest` branch of
+     drain_urgent / drain_low with next state [set_queues ..rest..], an observation of emptiness
+     is the `[]` branch; a Dequeue that answered nil saw [] at an instant inside the call;
+   - with no operation in flight (and < 2^31 tasks) Length() is [zlen] of the list, IsEmpty() the
+     [] test, and Trigger's threshold test is the one of [enqueue] (while operations are in flight
+     Length() lags by C13_length_lag; this only influences which queue a low-priority task joins);
+   - the list is what has been enqueued and not yet dequeued, in linearization order; for every
+     producer the linearization order of its Enqueues is its issue order ([calls_of] / [enqs_of]),
+     so with one producer the list is the not-yet-dequeued suffix of what it issued and what was
+     dequeued is the prefix; with any number of producers the tasks of one goroutine are dequeued
+     in the order it issued them (C13_producer_fifo).
+   The order of the `async ..` lines in the input of the loop model is that linearization order.
+   Each clause is an instance of a theorem of Properties/C13.v (Proofs/LoopQueueLink.v). *)
+Theorem C02_task_queue_link : forall nm : Z -> Loop.task,
+  (* the sequential specification is the list behaviour *)
+  (forall q : list Loop.task,
+     (forall v, AtomicQueue.qstep q (AtomicQueue.OpEnq v) = (q ++ [v], AtomicQueue.ResEnq)) /\
+     AtomicQueue.qstep q AtomicQueue.OpDeq = match q with [] => ([], AtomicQueue.ResDeq None) | t :: rest => (rest, AtomicQueue.ResDeq (Some t)) end /\
+     (snd (AtomicQueue.qstep q AtomicQueue.OpDeq) = AtomicQueue.ResDeq None <-> q = [])) /\
+  (* a new poller *)
+  (forall st, Loop.l_urgent st = [] -> Loop.l_low st = [] -> loop_queues nm MSQueue.init_state MSQueue.init_state st) /\
+  (* one atomic step of a queue *)
+  (forall s l s' q, Interleave.reachable MSQueue.ms_init MSQueue.ms_step s -> MSQueue.ms_step s l s' -> qrep nm s q ->
+     (MSQueue.g_hist s' = MSQueue.g_hist s /\ qrep nm s' q) \/
+     (exists e, MSQueue.g_hist s' = e :: MSQueue.g_hist s /\ AtomicQueue.ev_tid e = fst (fst l) /\
+        match e with
+        | AtomicQueue.LinEnq _ _ v => qrep nm s' (q ++ [nm v])
+        | AtomicQueue.LinDeq _ _ v => exists rest, q = nm v :: rest /\ qrep nm s' rest
+        | AtomicQueue.EmptyAt _ => q = [] /\ qrep nm s' []
+        | _ => qrep nm s' q
+        end)) /\
+  (* Poller.Trigger is Loop.enqueue *)
+  (forall su sl st is_low lab t id v su' sl',
+     Interleave.reachable MSQueue.ms_init MSQueue.ms_step su -> Interleave.reachable MSQueue.ms_init MSQueue.ms_step sl -> loop_queues nm su sl st ->
+     (if is_low && (Loop.zlen (Loop.l_urgent st) >=? Loop.l_thr st)
+      then su' = su /\ MSQueue.ms_step sl lab sl' /\ MSQueue.g_hist sl' = AtomicQueue.LinEnq t id v :: MSQueue.g_hist sl
+      else sl' = sl /\ MSQueue.ms_step su lab su' /\ MSQueue.g_hist su' = AtomicQueue.LinEnq t id v :: MSQueue.g_hist su) ->
+     loop_queues nm su' sl' (Loop.enqueue st is_low (nm v))) /\
+  (* drain_urgent / drain_low *)
+  (forall su sl st lab su', Interleave.reachable MSQueue.ms_init MSQueue.ms_step su -> loop_queues nm su sl st -> MSQueue.ms_step su lab su' ->
+     (forall t id v, MSQueue.g_hist su' = AtomicQueue.LinDeq t id v :: MSQueue.g_hist su ->
+        exists rest, Loop.l_urgent st = nm v :: rest /\
+          loop_queues nm su' sl (Loop.set_queues st rest (Loop.l_low st) (Loop.l_flag st))) /\
+     (forall t, MSQueue.g_hist su' = AtomicQueue.EmptyAt t :: MSQueue.g_hist su -> Loop.l_urgent st = [] /\ loop_queues nm su' sl st)) /\
+  (forall su sl st lab sl', Interleave.reachable MSQueue.ms_init MSQueue.ms_step sl -> loop_queues nm su sl st -> MSQueue.ms_step sl lab sl' ->
+     (forall t id v, MSQueue.g_hist sl' = AtomicQueue.LinDeq t id v :: MSQueue.g_hist sl ->
+        exists rest, Loop.l_low st = nm v :: rest /\
+          loop_queues nm su sl' (Loop.set_queues st (Loop.l_urgent st) rest (Loop.l_flag st))) /\
+     (forall t, MSQueue.g_hist sl' = AtomicQueue.EmptyAt t :: MSQueue.g_hist sl -> Loop.l_low st = [] /\ loop_queues nm su sl' st)) /\
+  (forall s l s' q, Interleave.reachable MSQueue.ms_init MSQueue.ms_step s -> MSQueue.ms_step s l s' -> qrep nm s q ->
+     (forall e, MSQueue.g_hist s' = e :: MSQueue.g_hist s -> AtomicQueue.lin_free e) -> qrep nm s' q) /\
+  (* a nil answer *)
+  (forall s newer t older, Interleave.reachable MSQueue.ms_init MSQueue.ms_step s -> MSQueue.g_hist s = newer ++ AtomicQueue.RetDeq t None :: older ->
+     exists l1 l2 s0, older = l1 ++ AtomicQueue.EmptyAt t :: l2 /\
+       (forall e, In e l1 -> AtomicQueue.is_boundary t e = false) /\
+       Interleave.reachable MSQueue.ms_init MSQueue.ms_step s0 /\ MSQueue.g_hist s0 = l2 /\ qrep nm s0 []) /\
+  (* Length / IsEmpty *)
+  (forall s q, Interleave.reachable MSQueue.ms_init MSQueue.ms_step s -> MSQueue.quiescent s -> qrep nm s q -> Loop.zlen q < 2147483648 ->
+     MSQueue.q_length s = Loop.zlen q /\
+     MSQueue.q_isempty s = match q with [] => true | _ :: _ => false end /\
+     (forall thr, (MSQueue.q_length s >=? thr) = (Loop.zlen q >=? thr))) /\
+  (* contents and order *)
+  (forall s, Interleave.reachable MSQueue.ms_init MSQueue.ms_step s ->
+     MSQueue.absq_items s = skipn (List.length (AtomicQueue.deqs (MSQueue.g_hist s))) (AtomicQueue.enqs (MSQueue.g_hist s)) /\
+     AtomicQueue.deqs (MSQueue.g_hist s) = firstn (List.length (AtomicQueue.deqs (MSQueue.g_hist s))) (AtomicQueue.enqs (MSQueue.g_hist s))) /\
+  (forall s, Interleave.reachable MSQueue.ms_init MSQueue.ms_step s -> MSQueue.quiescent s ->
+     (forall p, enqs_of p (MSQueue.g_hist s) = calls_of p (MSQueue.g_hist s)) /\
+     (forall p, (forall t id v, In (AtomicQueue.CallEnq t id v) (MSQueue.g_hist s) -> t = p) ->
+        AtomicQueue.enqs (MSQueue.g_hist s) = calls (MSQueue.g_hist s) /\
+        MSQueue.absq_items s = skipn (List.length (AtomicQueue.deqs (MSQueue.g_hist s))) (calls (MSQueue.g_hist s)) /\
+        AtomicQueue.deqs (MSQueue.g_hist s) = firstn (List.length (AtomicQueue.deqs (MSQueue.g_hist s))) (calls (MSQueue.g_hist s)))) /\
+  (forall s p q, Interleave.reachable MSQueue.ms_init MSQueue.ms_step s -> MSQueue.quiescent s ->
+     (forall t id v, In (AtomicQueue.CallEnq t id v) (MSQueue.g_hist s) -> t = p) -> qrep nm s q ->
+     q = map nm (map snd (skipn (List.length (AtomicQueue.deqs (MSQueue.g_hist s))) (calls (MSQueue.g_hist s))))) /\
+  (forall s t a va b vb l3 l4 l5 n1 n2 tb wb, Interleave.reachable MSQueue.ms_init MSQueue.ms_step s ->
+     MSQueue.g_hist s = l5 ++ AtomicQueue.CallEnq t b vb :: l4 ++ AtomicQueue.CallEnq t a va :: l3 ->
+     MSQueue.g_hist s = n1 ++ AtomicQueue.LinDeq tb b wb :: n2 ->
+     exists ta n3 n4, n2 = n3 ++ AtomicQueue.LinDeq ta a va :: n4).
+Proof. exact task_queue_link. Qed.
+Print Assumptions C02_task_queue_link.
